@@ -491,6 +491,69 @@ def check_locks(eng, run):
     run.ob("C08.locks", "AsyncTLSStreamTransport:two-distinct-locks", ok)
 
 
+def check_reader_not_behind_writer(eng, run):
+    """full duplex without deadlock (finding F10): a task that only wants to *read* - the SSLWantReadError arm and the path after a
+    successful SSL call - waits for the transport send lock only when the write BIO holds something to send.  Taking it
+    unconditionally parks each side's reader behind its own writer, which is parked in send_all() until the peer reads: with both
+    sides writing more than the transport buffers, nothing moves any more.  (The SSLWantWriteError arm always has output to flush.)"""
+    tls = eng.db.cls(TLS)
+    fn = tls.methods["_retry_ssl_method"]
+    send_lock = f"{fn.self_name}.__transport_send_lock"
+
+    class Pending(RuleAnalysis):
+        """fact: frozenset of 'pending' (a test on the write BIO's pending count was true on this path) / 'wantwrite' (inside the
+        SSLWantWriteError arm)"""
+        tokens = ("SSLWantReadError", "SSLWantWriteError", "Exception", CANCELLED)
+        inline_helpers = True
+
+        def __init__(self, e):
+            super().__init__(e)
+            self.sites = []
+
+        def initial(self, f):
+            return [frozenset()]
+
+        def may_raise(self, node, fact):
+            if isinstance(node, (ast.Await, ast.Call)) or (isinstance(node, WithEnter) and node.is_async):
+                return list(self.tokens)
+            return []
+
+        def handler_entry(self, handler, token, fact):
+            t = ast.unparse(handler.type) if handler.type is not None else ""
+            return [(fact - {"pending"}) | ({"wantwrite"} if "WantWrite" in t else set())]
+
+        def transfer(self, node, fact):
+            if isinstance(node, WithEnter):
+                from sa.analyses.locks import canon_lock
+                c = canon_lock(node.item.context_expr, self.fn)
+                if c is not None and c.split(".", 1)[-1] == send_lock.split(".", 1)[-1]:
+                    self.sites.append((node, fact))
+            return [fact]
+
+        def branch(self, test, fact):
+            if any(isinstance(x, ast.Attribute) and x.attr == "pending" and "write" in (dotted(x.value) or "") for x in ast.walk(test)):
+                return [fact | {"pending"}], [fact - {"pending"}]
+            if isinstance(test, ast.Call) and _cname(test) == "isinstance" and len(test.args) == 2 and "WantWrite" in ast.unparse(test.args[1]):
+                return [fact | {"wantwrite"}], [fact]  # the arms of one handler told apart by isinstance()
+            return [fact], [fact]
+
+    an = Pending(eng)
+    Interp(an, fn).run()
+    bad = [(n, f) for n, f in an.sites if "pending" not in f and "wantwrite" not in f]
+    seen = set()
+    for node, _f in bad:
+        st = node.stmt if hasattr(node, "stmt") else _stmt_at(fn, getattr(node, "lineno", fn.lineno))
+        if norm_stmt(st) in seen:
+            continue
+        seen.add(norm_stmt(st))
+        run.finding("C08.locks", fn, st, "the transport send lock is awaited on a read path (SSLWantReadError arm / after a successful SSL call) without a dominating test that the write BIO "
+                    "holds pending output: a reader then waits behind its own side's writer, which is parked in send_all() until the peer reads - with both directions active and more "
+                    "data than the transport buffers, both sides deadlock")
+    if not an.sites:
+        raise AnalysisError("anchor vanished: acquisitions of the transport send lock in _retry_ssl_method()")
+    run.ob("C08.locks", f"{fn.short}:send-lock-on-read-paths-only-with-pending-output", not bad, acquisitions=len(an.sites))
+
+
 def run(eng, run):
     from sa.anchors import verify as _verify_anchor_names
     _verify_anchor_names(eng, run)
@@ -503,6 +566,7 @@ def run(eng, run):
     run.attempt(check_remove_after_write, eng, run)
     run.attempt(check_underlying, eng, run)
     run.attempt(check_locks, eng, run)
+    run.attempt(check_reader_not_behind_writer, eng, run)
     from sa.analyses.sharing import check_private_buffers
     run.attempt(check_private_buffers, eng, run, "C08.recv", ("easynetwork.lowlevel.api_async.transports", "easynetwork.lowlevel.api_async.backend._asyncio.stream"), 2)
     # the TLS transport reads its ciphertext through the asyncio stream protocol: its pause/resume pairing and water marks are
